@@ -434,6 +434,105 @@ pub fn run_sched_plans(rep: &mut Report, id: &str, cases: Vec<SchedCase>, phases
     if !skipped_cases.is_empty() { rep.set("cases_skipped_because_their_pre_history_failed", json!(skipped_cases)); }
 }
 
+/// C09, "inside its own directory": every history of depth <= 3 over {edit, build, build(goal), clean,
+/// clean(goal)} of scenario S9 with the ruler directory set to something other than the default.
+/// Every mutation ruler itself makes must be on an in-scope target or inside THAT directory, and
+/// nothing may appear under the default name.
+fn alt_directory_probe(rep: &mut Report)
+{
+    const ALT: &str = "state-dir";
+    let sc = scen::s9_scope();
+    let sc2 = sc.clone();
+    let (r, outcome) = crate::sched::run_once(vec![], move ||
+    {
+        let rc = crate::world::RunCfg::serial(ClockModel::Strict);
+        let rules = sc2.variants[0].clone();
+        let g = crate::model::Graph::new(&rules);
+        let mut findings: Vec<(Vec<String>, String)> = vec![];
+        let mut runs = 0u64;
+        let init = hist::initial_state(&sc2, false);
+        // op alphabet: edits of the first leaf, build / clean with every goal
+        #[derive(Clone)]
+        enum P { Edit(usize), Build(Option<String>), Clean(Option<String>) }
+        let mut alphabet: Vec<P> = vec![P::Edit(0), P::Edit(1)];
+        for goal in &sc2.goals { alphabet.push(P::Build(goal.clone())); alphabet.push(P::Clean(goal.clone())); }
+        let mut frontier: Vec<(crate::memsys::Fs, Vec<String>)> = vec![(init.fs.clone(), vec![])];
+        for _depth in 0..3
+        {
+            let mut next = vec![];
+            for (fs, path) in &frontier
+            {
+                for p in &alphabet
+                {
+                    let mut np = path.clone();
+                    let nfs = match p
+                    {
+                        P::Edit(v) => { np.push(format!("edit({},{})", sc2.edits[0].0, v)); let mut f = fs.clone(); crate::world::user_write(&mut f, &sc2.edits[0].0, sc2.edits[0].1[*v].clone()); f },
+                        P::Build(goal) | P::Clean(goal) =>
+                        {
+                            let is_build = matches!(p, P::Build(_));
+                            np.push(format!("{}({}) --directory {}", if is_build { "build" } else { "clean" }, goal.clone().unwrap_or_default(), ALT));
+                            let rr = if is_build { crate::world::run_build_in(fs, &rc, goal, ALT) } else { crate::world::run_clean_in(fs, &rc, goal, ALT) };
+                            runs += 1;
+                            let scope_targets: std::collections::BTreeSet<String> = match g.scope(goal) { Some(s) => g.scope_targets(&s), None => Default::default() };
+                            for m in rr.log.muts.iter().filter(|m| m.ok && !m.in_cmd)
+                            {
+                                let mut ps = vec![m.path.clone()];
+                                if let crate::memsys::MutKind::Rename { to, .. } = &m.kind { ps.push(to.clone()); }
+                                for q in ps
+                                {
+                                    let inside = q == ALT || q.starts_with(&format!("{}/", ALT));
+                                    if !inside && !scope_targets.contains(&q)
+                                    {
+                                        findings.push((np.clone(), format!("ruler itself changed {:?}, which is neither an in-scope target nor inside the ruler directory it was given ({})", q, ALT)));
+                                    }
+                                }
+                            }
+                            if rr.fs.map.keys().any(|k| k == crate::world::RULER_DIR || k.starts_with(".ruler/"))
+                            {
+                                findings.push((np.clone(), format!("a directory named {} appeared although the ruler directory was given as {}", crate::world::RULER_DIR, ALT)));
+                            }
+                            rr.fs
+                        },
+                    };
+                    next.push((nfs, np));
+                }
+            }
+            frontier = next;
+        }
+        (findings, runs, frontier.len() as u64)
+    });
+    match (r, outcome.failure)
+    {
+        (Some((findings, runs, leaves)), None) =>
+        {
+            rep.set("alternate_directory_probe", json!({"directory": ALT, "depth": 3, "histories": leaves, "ruler_invocations": runs}));
+            rep.add("traces_validated_against_impl", runs);
+            if let Some((path, what)) = findings.into_iter().next()
+            {
+                rep.violation(Violation
+                {
+                    property: "C09".into(),
+                    signature: "C09:altdir:ruler touched a path outside the ruler directory it was given".to_string(),
+                    summary: format!("{} after [{}]", what, path.join(" ; ")),
+                    replay: json!({"engine": "altdir"}),
+                });
+            }
+        },
+        (_, Some(f)) =>
+        {
+            rep.violation(Violation
+            {
+                property: "C09".into(),
+                signature: "C09:altdir:ruler failed when given another ruler directory".to_string(),
+                summary: format!("a build or clean with --directory {} panicked or hung: {}", ALT, f),
+                replay: json!({"engine": "altdir"}),
+            });
+        },
+        _ => rep.machinery("alternate directory probe produced no result".to_string()),
+    }
+}
+
 pub fn first_line(s: &str) -> String
 {
     s.lines().next().unwrap_or("").chars().take(160).collect()
@@ -513,6 +612,7 @@ fn check(id: &str, tier: &str) -> i32
                 plans.push(p);
             }
             run_hist_plans(&mut rep, id, plans);
+            alt_directory_probe(&mut rep);
         },
         "C10" =>
         {
@@ -690,6 +790,14 @@ fn replay_inner(path: &str) -> i32
     let r = &v["replay"];
     match r["engine"].as_str().unwrap_or("")
     {
+        "altdir" =>
+        {
+            let mut rep = Report::new(&prop, "quick");
+            rep.write_evidence = false;
+            alt_directory_probe(&mut rep);
+            let sig = v["signature"].as_str().unwrap_or("");
+            if rep.violations.iter().any(|x| x.signature == sig) { println!("{}", rep.violations[0].summary); println!("VIOLATION property={} replay={}", prop, path); 1 } else { 0 }
+        },
         "unreplayable" =>
         {
             println!("no stand-alone replay exists for this item; what was observed: {}", v["summary"].as_str().unwrap_or(""));
